@@ -368,7 +368,7 @@ theorem facts_drift : Facts.C14.driftStrict = true ∧ Facts.C14.driftThreshold 
 open Table in
 /-- class (0 RPCSession / 1 MessageSession), kind (0 good request or message, 1 failing request,
 2 crashing handler, 3 failing notification, 4 garbage line, 5 invalid request object, 7 bad
-checksum), bw, base, bytes in, bytes out (unframed), own cost, cost delta, errors delta -/
+checksum, 8 handler result that cannot be JSON-encoded: set / bytes / too deeply nested), bw, base, bytes in, bytes out (unframed), own cost, cost delta, errors delta -/
 def chargeRowOk (row : List Int) : Bool :=
   match row with
   | [_cls, kind, bwn, bwd, bn, bd, nin, nout, on, od, dn, dd, derr] =>
@@ -382,9 +382,10 @@ def chargeRowOk (row : List Int) : Bool :=
 /-- **Every message received or sent is charged at the per-byte rate, every failed request or
 notification and every protocol violation the base error cost plus its own cost, and counted as
 one error** — observed on live sessions of both classes (request + reply, failing request,
-crashing handler, failing notification, garbage line, invalid request, bad checksum). -/
+crashing handler, failing notification, garbage line, invalid request, bad checksum, a handler
+result that cannot be encoded as JSON). -/
 theorem facts_charge_table :
-    Facts.C14.chargeTable.all chargeRowOk = true ∧ 20 ≤ Facts.C14.chargeTable.length := by
+    Facts.C14.chargeTable.all chargeRowOk = true ∧ 36 ≤ Facts.C14.chargeTable.length := by
   decide +kernel
 
 open Table in
